@@ -2089,6 +2089,7 @@ class Table(Replayable):
         return new_column_index
 
     def remove_column(self, column_name):
+        column_index = column_name
         if not isinstance(column_name, int):
             try:
                 column_index = self.get_column_index(column_name)
